@@ -429,6 +429,22 @@ type Session struct {
 	notify  chan struct{}
 	sendN   int
 	lastAt  time.Duration
+	blocked chan struct{} // non-nil: Send waits until it is closed (back-pressure from a peer that does not read)
+}
+
+// BlockPeerSend makes the Send calls of the other end block (a peer that has stopped reading, so the
+// sender's socket buffer is full) until it is called again with false.
+func (s *Session) BlockPeerSend(block bool) {
+	p := s.peer
+	p.mu.Lock()
+	defer p.mu.Unlock()
+	if block && p.blocked == nil {
+		p.blocked = make(chan struct{})
+		s.w.Count("fault_send_blocked", 1)
+	} else if !block && p.blocked != nil {
+		close(p.blocked)
+		p.blocked = nil
+	}
 }
 
 func (s *Session) isOpen() bool {
@@ -473,6 +489,15 @@ func (s *Session) push(data []byte, eof bool, rec *WireRec) {
 // Send implements BackendSession.
 func (s *Session) Send(data []byte) error {
 	s.mu.Lock()
+	for s.blocked != nil && !s.closed && !s.severed {
+		ch := s.blocked
+		s.mu.Unlock()
+		select {
+		case <-ch:
+		case <-s.notify:
+		}
+		s.mu.Lock()
+	}
 	if s.closed || s.severed {
 		s.mu.Unlock()
 		return fmt.Errorf("session closed")
